@@ -113,12 +113,18 @@ TEXT = {
   "technique": "Coq proof (framing, field-level conformance) + extracted strict specification decoder as judge of WriteTo output",
  },
  "C03": {
-  "level": "Theorems C03_ack_short, C03_short_forms (every legal short form, all field values, same reading as the specification), C03_fields (the "
-           "specification's encodings of strings up to 65 535 bytes, minimal vbints, integers, user properties are read back exactly). C03_refuted "
-           "(Findings/) proves the full statement false of the model because of known finding D13; the remaining valid-frame language is decided on the "
-           "implementation with the specification's encoder as generator.",
-  "note": NOTE + " Known finding D13 is listed in KNOWN_FINDINGS.txt and reported as KNOWN-FINDING.",
-  "technique": "Coq proof (short forms, field decoders, refutation witness) + specification-encoder-driven acceptance oracle",
+  "level": "Theorem C03_valid_frames (Properties/C03.v): for every abstract frame of the specification model - any of the fifteen types, the properties "
+           "table 2-4 allows in any order, once-only identifiers at most once, explicit zero values, empty strings, every legal short form, strings up to "
+           "65 535 bytes, no bound on the number of properties, filters or reason codes - the bytes of the specification's encoder are read by ReadPacket "
+           "under any delivery, without error, as a packet of the matching type whose accessors equal the specification's reading (frame_obs). The one "
+           "excluded case is DISCONNECT carrying a property other than user properties: known finding D13, for which C03_refuted (Findings/) proves the "
+           "unrestricted statement false of the model and the oracle reports KNOWN-FINDING. Also C03_ack_short, C03_short_forms, C03_fields. Tied to the "
+           "source by the regenerated decoder IR and property maps (sync lemmas), fingerprints, correspondence, and the acceptance oracle driven by the "
+           "extracted specification encoder.",
+  "note": NOTE + " Known finding D13 is listed in KNOWN_FINDINGS.txt and reported as KNOWN-FINDING. The statement quantifies over frames written by the "
+          "specification's encoder; that every byte string its strict decoder accepts is such a frame is exercised by the generator (decode of encode) but "
+          "not proved.",
+  "technique": "Coq proof (acceptance of every specification-encoded frame, any property order, for all 15 types; refutation witness for D13) + specification-encoder-driven acceptance oracle",
  },
  "C09": {
   "level": "Theorems C09a_* (each field decoder reports a cut strictly inside the field, for every value and interior position; a frame ending before a "
